@@ -141,7 +141,12 @@ impl<'a> G<'a> {
                 let f = *self.rng.pick(&["hypot", "atan2"]);
                 let r = match (&da, &db) { (Ok(x), Ok(y)) if x == y => if f == "hypot" { Ok(x.clone()) } else { Ok([("radian".to_string(), 1)].into_iter().collect()) }, _ => Err(()) };
                 (format!("{}({}, {})", f, a, b), r) }
-            12 => { let (a, da) = if self.rng.chance(1, 2) { let c = coef(self.rng); (format!("{} {}", c, self.rng.pick(&["radian", "degree", "1", "arcminute"])), Ok(DV::new())).clone() } else { self.expr(depth - 1) };
+            12 => { let (a, da) = if self.rng.chance(1, 2) { let c = coef(self.rng); (format!("{} {}", c, self.rng.pick(&["radian", "degree", "1", "arcminute"])), Ok(DV::new())).clone() }
+                    else if self.rng.chance(1, 2) {
+                        // near-misses of the angle gate: powers and products of the angle unit
+                        let c = coef(self.rng);
+                        (format!("{} {}", c, self.rng.pick(&["radian^2", "radian^-1", "degree degree", "1 / radian", "radian^3", "steradian", "radian second", "radian / radian", "degree / radian", "radian^0"])), Ok(DV::new()))
+                    } else { self.expr(depth - 1) };
                 let f = *self.rng.pick(&["sin", "cos", "tan"]);
                 // re-derive the operand's algebra (the `degree`/`radian` names carry the angle dimension)
                 let da = if let Some(n) = eval_number(&self.db.ctx, &a) { let _ = da; Ok(dv_of(&n.unit)) } else { da };
